@@ -424,3 +424,8 @@ Theorem model_is_code_instance_ep : forall o, obj_ok o ->
   end.
 Proof. exact init_norm_ep. Qed.
 Print Assumptions model_is_code_instance_ep.
+
+Theorem model_is_code_pendulum_instance_date : forall o tz, obj_ok o -> is_dt o = false ->
+  glue_pendulum_instance o tz = if is_pdate o then Ok o else Ok (mkgobj 2 (o_wall o) 0 None).
+Proof. exact glue_pendulum_instance_date. Qed.
+Print Assumptions model_is_code_pendulum_instance_date.
